@@ -7,13 +7,19 @@ LEVEL = "other"
 H = "vf.contracts.c_scanner."
 SC = c15.SC
 LX = c15.LX
-FUNCTIONS = [SC + "get_position", SC + "get_token", SC + "emit", SC + "next", SC + "_handle_line"] + c15.FUNCTIONS[11:]
+FUNCTIONS = [SC + "get_position", SC + "get_token", SC + "emit", SC + "next", SC + "_handle_line"] + [f for f in c15.FUNCTIONS if ".scanner_states." in f] + \
+            ["a816.parse.parser_states." + n for n in ("parse_decl", "parse_opcode", "parse_operand_and_addressing", "parse_keyword", "parse_expression_list_inner", "parse_expression", "_parse_expression")] + \
+            ["a816.parse.codegen." + n for n in ("_code_gen", "generate_opcode", "generate_db", "generate_dw", "generate_dl")] + \
+            ["a816.parse.nodes." + n for n in ("OpcodeNode.emit", "ByteNode.emit", "WordNode.emit", "LongNode.emit", "ExpressionNode.get_value", "NodeError.__init__")]
 MIN_OBLIGATIONS = 40
 EXPLANATION = ("Over a SYMBOLIC input, every lexer function is run from a well-formed scanner and every Position it creates -- for each emitted token "
                "(COMMENT excepted) and each ScannerException -- must be taken while the token start is still on the line being scanned "
                "(line_offset <= start: the recorded line is the token's line and the column is non-negative); these are call-site preconditions of "
                "get_position / get_token, discharged at every site reached.  Scanner.next's line bookkeeping (one line closed per line end, its text "
-               "recorded) is a separate contract.  File names, quoted line text and parser/codegen plumbing of file_info are the bounded part.")
+               "recorded) is a separate contract.  The parser/codegen hop is proved on the real parse_decl / _code_gen / emit for a token list made of an ARBITRARY prefix "
+               "(any length, any tokens, any lines) followed by one statement with an undefined symbol (5 opcode operand shapes, .db/.dw/.dl/.pointer): the NodeError raised "
+               "is attributed to a token on the statement's own line of the statement's own file.  File names of included files, the quoted line text and the "
+               "message format are the bounded part.")
 TRUSTED = ["vf/specs/lexmodel.py (checked get_position/get_token wrappers; sub-lexer contracts with line bookkeeping)"]
 ASSUMPTIONS = ["COMMENT tokens are excluded from the position clause on purpose (both comment forms consume the line end before the token is emitted; a COMMENT "
                "never heads a statement and the parser drops it)",
@@ -65,8 +71,44 @@ def shape_fn(name):
     return sh
 
 
+STATEMENTS = {
+    "lda e": [("OPCODE", "lda"), ("IDENTIFIER", "undefined_symbol")],
+    "lda.w e,x": [("OPCODE", "lda"), ("OPCODE_SIZE", "w"), ("IDENTIFIER", "undefined_symbol"), ("ADDRESSING_MODE_INDEX", "x")],
+    "lda #e": [("OPCODE", "lda"), ("SHARP", "#"), ("IDENTIFIER", "undefined_symbol")],
+    "sta (e),y": [("OPCODE", "sta"), ("LPAREN", "("), ("IDENTIFIER", "undefined_symbol"), ("RPAREN", ")"), ("ADDRESSING_MODE_INDEX", "y")],
+    "jmp e + 1": [("OPCODE", "jmp"), ("IDENTIFIER", "undefined_symbol"), ("OPERATOR", "+"), ("NUMBER", "1")],
+    ".db e": [("KEYWORD", "db"), ("IDENTIFIER", "undefined_symbol")],
+    ".dw 1, e": [("KEYWORD", "dw"), ("NUMBER", "1"), ("COMMA", ","), ("IDENTIFIER", "undefined_symbol")],
+    ".dl e": [("KEYWORD", "dl"), ("IDENTIFIER", "undefined_symbol")],
+    ".pointer e": [("KEYWORD", "pointer"), ("IDENTIFIER", "undefined_symbol")],
+}
+
+
+def shape_statement_after_prefix(name):
+    def sh(B):
+        from vf.props import shapes as S
+        from vf.pyvc.values import HSymList
+        f = B.inst("a816.parse.tokens.File", filename="t.s", lines=B.list([]))
+        line = B.int("statement_line", 0)
+        stmt = []
+        for k, (tt, v) in enumerate(STATEMENTS[name] + [("EOF", "")]):
+            pos = B.inst("a816.parse.tokens.Position", line=line if tt != "EOF" else B.int("eof_line"), column=B.int(f"column{k}", 0), file=f)
+            stmt.append(B.inst("a816.parse.tokens.Token", type=B.enum("a816.parse.tokens.TokenType", tt), value=v, position=pos))
+        toks = B.symtokens("prefix", file=f)
+        o = B.I.hget(B.st, toks)
+        B.st.heap[toks.oid] = HSymList(o.length, o.mk, (), tuple(stmt), "tokens")  # arbitrary prefix ++ the statement ++ EOF
+        p = B.inst("a816.parse.parser.Parser", tokens=toks, pos=o.length, initial_state=None)
+        return {"p": p, "resolver": S.resolver(B), "addr": S.lorom_address(B), "line": line, "file": f, "n_statement_tokens": len(stmt) - 1}
+    return sh
+
+
+EH = "vf.contracts.c_errors."
+
+
 def cases(E):
-    cs = [Case(H + "positions_contract", n, shape_fn(n), target=[LX + n], timeout_ms=30000) for n in ["lex_initial"] + c15.SUBLEXERS]
+    cs = [Case(EH + "statement_error_token_contract", f"any prefix, then `{n}`", shape_statement_after_prefix(n),
+               target=["a816.parse.parser_states.parse_decl", "a816.parse.codegen._code_gen", "a816.parse.codegen.generate_opcode", "a816.parse.codegen.generate_db"]) for n in STATEMENTS]
+    cs += [Case(H + "positions_contract", n, shape_fn(n), target=[LX + n], timeout_ms=30000) for n in ["lex_initial"] + c15.SUBLEXERS]
     cs.append(Case(H + "next_line_bookkeeping_contract", "any input, any position", c15.shape_scanner, target=[SC + "next", SC + "_handle_line"]))
     return cs
 
@@ -79,6 +121,9 @@ def bounded(tier, seed):
 def mutants():
     from vf.pyvc.mutate import textual
     return [
+        Mutant("parse_opcode:attributed-to-the-following-token", "a816.parse.parser_states.parse_opcode", textual("file_info=opcode)", "file_info=p.current())"), only_harness="statement_error"),
+        Mutant("parse_keyword:db-attributed-to-the-following-token", "a816.parse.parser_states.parse_keyword", textual("return DataNode('db', expressions, keyword)", "return DataNode('db', expressions, p.current())"), only_harness="statement_error"),
+        Mutant("generate_opcode:error-without-location", "a816.parse.codegen.generate_opcode", textual("value_node=ExpressionNode(operand, resolver, file_info)", "value_node=ExpressionNode(operand, resolver, None)"), only_harness="statement_error"),
         Mutant("lex_quoted_string:position-after-line-end", LX + "lex_quoted_string", textual("raise ScannerException('Unterminated String', string_position)", "raise ScannerException('Unterminated String', s.get_position())"), only_harness="positions"),
         Mutant("lex_opcode_size:position-after-next", LX + "lex_opcode_size", textual("raise ScannerException('Invalid Size Specifier', size_position)", "raise ScannerException('Invalid Size Specifier', s.get_position())"), only_harness="positions"),
         Mutant("_handle_line:two-lines-per-line-end", SC + "_handle_line", textual("self.current_line += 1", "self.current_line += 2"), only_harness="next_line"),
